@@ -189,6 +189,11 @@ class DictionaryDataBase(DataBase):
             Index of the data to be removed.
         """
         with self._lock:
+            # Prefer the very object handed out by get()/all(); fall back to equality
+            for key, value in self.database.items():
+                if value is data_object:
+                    del self.database[key]
+                    return True
             for key, value in self.database.items():
                 if value == data_object:
                     del self.database[key]
